@@ -101,24 +101,26 @@ func FlattenProperties(it Item) Item {
 		return nil
 	}
 	typ := it.GetType()
-	if IntransitiveActivityTypes.Contains(typ) {
+	// NOTE: the generic type names (Activity, IntransitiveActivity, Actor, Object) and untyped objects are flattened
+	// like their more specific types
+	if IntransitiveActivityTypes.Contains(typ) || typ == IntransitiveActivityType {
 		_ = OnIntransitiveActivity(it, func(a *IntransitiveActivity) error {
 			FlattenIntransitiveActivityProperties(a)
 			return nil
 		})
-	} else if ActivityTypes.Contains(typ) {
+	} else if ActivityTypes.Contains(typ) || typ == ActivityType {
 		_ = OnActivity(it, func(a *Activity) error {
 			FlattenActivityProperties(a)
 			return nil
 		})
 	}
-	if ActorTypes.Contains(typ) {
+	if ActorTypes.Contains(typ) || typ == ActorType {
 		OnActor(it, func(a *Actor) error {
 			FlattenActorProperties(a)
 			return nil
 		})
 	}
-	if ObjectTypes.Contains(typ) {
+	if ObjectTypes.Contains(typ) || typ == ObjectType || typ == "" {
 		OnObject(it, func(o *Object) error {
 			FlattenObjectProperties(o)
 			return nil
